@@ -198,12 +198,15 @@ def main(argv=None):
     if unlisted:
         os.makedirs(os.path.join(VERIF, 'replays'), exist_ok=True)
         for j, (sig, rs) in enumerate(unlisted.items()):
+            if j >= 12:
+                print('... and %d more violation signatures (not written out)' % (len(unlisted) - 12))
+                break
             r = rs[0]
             path = os.path.join(VERIF, 'replays', '%s-%d-%d.json' % (prop, vseed, r['i']))
             rep = {'property': prop, 'engine': registry.ENGINE_OF[prop], 'found': {'verif_seed': vseed, 'index': r['i'], 'run_seed': r['seed'], 'tier': tier},
                    'scenario': r['scenario'], 'expect': {'signature': list(sig), 'digest': r.get('digest')},
                    'detail': r['violation']['detail'], 'occurrences_in_run': len(rs), 'minimised': False}
-            if not a.no_shrink and j < 3:
+            if not a.no_shrink and j < 6:
                 try:
                     inp = os.path.join(scratch, 'shrink_in_%d.json' % j)
                     outp = os.path.join(scratch, 'shrink_out_%d.json' % j)
